@@ -26,7 +26,7 @@ func TestVerifC01(t *testing.T) {
 	defer out.Close()
 	n := 2500
 	if verifh.Thorough() {
-		n = 40000
+		n = 30000
 	}
 	for i := 0; i < n; i++ {
 		vbC01Case(t, out, fmt.Sprintf("c01-%d", i), "", nil)
